@@ -139,7 +139,14 @@ int main(int argc, char **argv)
     int mgrp[2] = {0, 0};
 
     for (i = 0; i < (int) sizeof(payload); i++) payload[i] = (unsigned char) (i * 31 + 7);
-    if (!strcmp(key, "pss"))
+    if (!strcmp(key, "gen"))
+    {
+        /* any generated identity: certdir=<dir> leaf=<cert> lkey=<key> root=<cert> */
+        const char *cd = arg(argc, argv, "certdir", ".");
+        snprintf(cert, sizeof(cert), "%s/%s.pem", cd, arg(argc, argv, "leaf", "leaf")); snprintf(pkey, sizeof(pkey), "%s/%s.key.pem", cd, arg(argc, argv, "lkey", "kL"));
+        snprintf(ca, sizeof(ca), "%s/%s.pem", cd, arg(argc, argv, "root", "root"));
+    }
+    else if (!strcmp(key, "pss"))
     {
         /* rsaEncryption keys, certificates signed with RSASSA-PSS (generated into certdir=) */
         const char *cd = arg(argc, argv, "certdir", ".");
